@@ -94,7 +94,7 @@ func genC10(t *rapid.T) c10Case {
 	c := c10Case{Prog: g.p}
 	n := rapid.IntRange(3, 8).Draw(t, "ntemplates")
 	for i := 0; i < n; i++ {
-		kind := rapid.SampledFrom([]string{"ordinary", "failing", "failing", "probing", "probing", "embprobe", "returning", "nested-ranges", "trying", "publishing", "relinclude", "positional", "ptrmethod", "mapbuilder"}).Draw(t, "kind")
+		kind := rapid.SampledFrom([]string{"ordinary", "failing", "failing", "probing", "probing", "embprobe", "returning", "nested-ranges", "trying", "publishing", "relinclude", "positional", "ptrmethod", "mapbuilder", "swallowing"}).Draw(t, "kind")
 		path := c10EntryPath(i, kind)
 		var body []*mj.Node
 		rt := mj.Print(mj.Call("rtprobe"))
@@ -115,6 +115,18 @@ func genC10(t *rapid.T) c10Case {
 				inner = []*mj.Node{{K: "try", Body: g.path(1, inner), HasCatch: true, Catch: []*mj.Node{mj.Text("(caught)")}}}
 			}
 			body = g.path(depth, inner)
+		case "swallowing":
+			// the execution succeeds although something failed on the way: isset() asked for a member of what a
+			// template returns, and that template failed below constructs that had opened scopes / rebound '.'
+			g.uniq++
+			sub := &mj.File{Path: fmt.Sprintf("/inc/sw%d.jet", g.uniq), Imports: []string{"/lib.jet"}, Body: g.path(rapid.IntRange(1, 3).Draw(t, "swdepth"), []*mj.Node{mj.Text("reached"), g.failure(), mj.Text("never")})}
+			g.p.Files = append(g.p.Files, sub)
+			body = []*mj.Node{mj.Text("(answer:"), mj.Print(mj.Call("isset", mj.Chain(mj.Call("exec", mj.Str(sub.Path)), "x"))), mj.Text(")(.="), mj.Print(mj.Dot()), mj.Text(")")}
+			for _, d := range g.decls {
+				if rapid.IntRange(0, 3).Draw(t, "swProbeDecl") == 0 {
+					body = append(body, mj.Text(d+":"), mj.Print(mj.Call("isset", mj.Var(d))), mj.Text(" "))
+				}
+			}
 		case "trying":
 			// try bodies that succeed: their buffered output is handed to the destination (which may fail half-way)
 			body = []*mj.Node{{K: "try", Body: []*mj.Node{mj.Text("tried:"), mj.Print(mj.Dot()), mj.Text(":0123456789abcdefghijklmnopqrstuvwxyz"),
@@ -470,7 +482,7 @@ func judgeC10(c c10Case) (v core.Verdict) {
 
 func TestC10(t *testing.T) {
 	core.Run(t, "C10",
-		"histories of 2-15 Execute calls (template, nil/string/map data, nil or non-nil VarMap, destination that works or fails after 1/7/30 bytes) on one goroutine over a pool of 3-8 generated templates: ordinary, failing (failure of any of 24 kinds below range / if-let / block / yield-with-content / yielded block body / include with context / inner try, uncaught or caught), trying (successful try bodies, nested), returning from a range (slice, array, 1- and 4-entry maps), nested ranges over the same value, publishing (a function calling Runtime.LetGlobal), pages in directories of their own including the same relative name, pages overriding a block that a shared layout yields with positional arguments, and probing (top-level yield content, '.', isset of names other templates declare or publish, a range, a range-else over an empty map), each call on one of two Sets over the same sources (default escaper / escaper off; data with HTML-special bytes); oracle = every call reproduces byte for byte (errors: nil-ness and position) what the same call renders right after the object pools were emptied by two forced GCs, while the history runs with GOMAXPROCS(1) and GC off so the pooled Runtime is reused (pointer observed through a probe function); structural hash of every Template before/after; reference interpreter as second opinion; non-trivial = a failing execution followed by a probing one on the same Runtime pointer",
+		"histories of 2-15 Execute calls (template, nil/string/map data, nil or non-nil VarMap, destination that works or fails after 1/7/30 bytes) on one goroutine over a pool of 3-8 generated templates: ordinary, failing (failure of any of 24 kinds below range / if-let / block / yield-with-content / yielded block body / include with context / inner try / block yielded by a Go helper through Runtime.YieldBlock, uncaught or caught), trying (successful try bodies, nested), returning from a range (slice, array, 1- and 4-entry maps), nested ranges over the same value, publishing (a function calling Runtime.LetGlobal), pages in directories of their own including the same relative name, pages overriding a block that a shared layout yields with positional arguments, and probing (top-level yield content, '.', isset of names other templates declare or publish, a range, a range-else over an empty map), each call on one of two Sets over the same sources (default escaper / escaper off; data with HTML-special bytes); oracle = every call reproduces byte for byte (errors: nil-ness and position) what the same call renders right after the object pools were emptied by two forced GCs, while the history runs with GOMAXPROCS(1) and GC off so the pooled Runtime is reused (pointer observed through a probe function); structural hash of every Template before/after; reference interpreter as second opinion; non-trivial = a failing execution followed by a probing one on the same Runtime pointer",
 		genC10, judgeC10)
 }
 
